@@ -128,7 +128,8 @@ func aggVariants(ce *cer, kind string, rng *hx.Rng) [][]keyed {
 	return out
 }
 
-func gen(a hx.Args, run *hx.Run, exec func(string), cur func() *cer) {
+func gen(a hx.Args, run *hx.Run, exec func(string), cur func() *cer, lastProtoOK func() bool) {
+	protoDone := 0
 	rng := hx.NewRng(a.Seed)
 	maxN, maxV := 5, 3
 	if a.Tier == "thorough" {
@@ -288,6 +289,109 @@ func gen(a hx.Args, run *hx.Run, exec func(string), cur func() *cer) {
 		}
 		for _, i := range rng.Perm(len(taus))[:2] {
 			exec(fmt.Sprintf("xrun %d", taus[i]))
+		}
+		// cluster-changing protocols on what the ceremony wrote: one per quick seed, chains in the thorough tier
+		chain := 0
+		if a.Tier == "quick" || a.Tier == "search" {
+			if protoDone == 0 && verAtLeast(c.ver, 7) { // a v1.6.0 lock is refused by every protocol (known finding)
+				chain = 1
+			}
+		} else {
+			chain = 1 + rng.Intn(3)
+			if !verAtLeast(c.ver, 7) {
+				chain = 1
+			}
+		}
+		cn, ct := n, t // shape of the latest generation
+		for ; chain > 0; chain-- {
+			var op string
+			nn, nt := cn, ct
+			switch kind := rng.Intn(8); {
+			case kind <= 1:
+				op = fmt.Sprintf("reshare %d", rng.U64()%1000000)
+			case kind <= 3 && cn <= 6:
+				k := 1 + rng.Intn(2)
+				if cn+k > 7 {
+					k = 1
+				}
+				op = fmt.Sprintf("addop %d %d", k, rng.U64()%1000000)
+				nn = cn + k
+			case kind <= 5 && cn >= 3:
+				r := 1
+				if cn >= 5 && rng.Chance(1, 2) {
+					r = 2
+				}
+				rm := sortedInts(rng.Perm(cn)[:r])
+				newN := cn - r
+				var part []int
+				if newN < ct { // the remaining operators alone cannot reshare: removed ones take part
+					part = append(part, rm[:ct-newN]...)
+				} else if rng.Chance(1, 4) {
+					part = append(part, rm[0])
+				}
+				newT := 0
+				if lo, hi := ceilThreshold(newN), newN-1; lo <= hi && rng.Chance(1, 2) {
+					newT = lo + rng.Intn(hi-lo+1)
+				}
+				if rng.Chance(1, 8) {
+					newT = newN // must be refused: the explicit threshold has to stay below the node count
+				}
+				ps := "-"
+				if len(part) > 0 {
+					ps = idsStr(part)
+				}
+				op = fmt.Sprintf("rmop %s %s %d %d", idsStr(rm), ps, newT, rng.U64()%1000000)
+				nn, nt = newN, newT
+				if newT == 0 {
+					nt = ceilThreshold(newN)
+				}
+			case cn-1 >= ct:
+				op = fmt.Sprintf("replop %d %d", rng.Intn(cn), rng.U64()%1000000)
+			default:
+				op = fmt.Sprintf("reshare %d", rng.U64()%1000000)
+			}
+			before := run.NOps
+			exec(op)
+			protoDone++
+			_ = before
+			if !lastProtoOK() {
+				continue
+			}
+			cn, ct = nn, nt
+			for k := 0; k < nv; k++ {
+				exec(fmt.Sprintf("nval %d", k))
+				full := 1<<cn - 1
+				var masks []int
+				for m := 1; m <= full; m++ {
+					if popcount(m) >= ct && (cn <= 6 || rng.Chance(1, 3)) {
+						masks = append(masks, m)
+					}
+				}
+				if ct >= 2 {
+					m := 0
+					for _, i := range rng.Perm(cn)[:ct-1] {
+						m |= 1 << i
+					}
+					masks = append(masks, m)
+				}
+				msg := make([]byte, 1+rng.Intn(48))
+				for i := range msg {
+					msg[i] = byte(rng.U64())
+				}
+				for _, m := range masks {
+					var ids []int
+					for i := 0; i < cn; i++ {
+						if m&(1<<i) != 0 {
+							ids = append(ids, i+1)
+						}
+					}
+					exec(fmt.Sprintf("nrec %d %s", k, idsStr(ids)))
+					exec(fmt.Sprintf("nsig %d %s %x", k, idsStr(ids), msg))
+				}
+			}
+			for j := 0; j < cn; j++ {
+				exec(fmt.Sprintf("part %d", j))
+			}
 		}
 	}
 }
